@@ -33,6 +33,15 @@ func register(id string, explanation string, assumptions []string, rules ...rule
 	registry[id] = &propertySpec{id: id, rules: rules, explanation: explanation, assumptions: assumptions}
 }
 
+// addRule appends a rule to a property registered before.
+func addRule(id string, r rule) {
+	if sp := registry[id]; sp != nil {
+		sp.rules = append(sp.rules, r)
+	} else {
+		panic("addRule: unknown property " + id)
+	}
+}
+
 var commonAssumptions = []string{
 	"Go compiler, runtime and standard library behave as documented (trusted, not analysed)",
 	"github.com/libsv/go-bk (bec, crypto, base58), github.com/pkg/errors, golang.org/x/crypto/ripemd160 are trusted through the contracts table in contracts.go",
